@@ -27,6 +27,7 @@
 #include "common/lincheck.hpp"
 #include "common/model.hpp"
 #include "common/sched.hpp"
+#include "common/universe.hpp"
 #include "common/vh.hpp"
 
 using vh::json;
@@ -90,10 +91,16 @@ struct program {
 // under a two-child top node (collapse with prefix prepend onto the hot node) and with one
 // deeper child; operation keys sit on the transitions (grow at capacity, shrink at minimum,
 // collapse, prefix split / merge, root replacement).
-program make_program(vh::rng& r, bool small, const vh::args& a) {
+program make_program(vh::rng& r, bool small, const vh::args& a, bool byte_string_keys = false) {
   program p;
   const auto famsel = r.below(100);
-  bytes B(8, '\0');
+  // uint64 keys are their 8 big-endian bytes; byte-string keys get a per-program fixed length of 5..14 bytes
+  // (equal lengths keep the set prefix-free). All branching positions lie in the first 8 bytes, so any two keys
+  // differ within their first 8 bytes and EVERY subset of the key universe - whatever the interleaving leaves in
+  // the tree - needs compressed paths of at most 7 bytes (the D4-free domain); the bytes beyond are payload.
+  const std::size_t Lfull = byte_string_keys ? 5 + r.below(10) : 8;
+  const std::size_t L = std::min<std::size_t>(Lfull, 8);  // position space
+  bytes B(Lfull, '\0');
   for (auto& c : B) c = static_cast<char>(r.below(256));
   std::set<bytes, vm::byte_less> init, uni;
   std::vector<std::pair<int, bytes>> structural;  // writer operations that restructure nodes
@@ -102,7 +109,7 @@ program make_program(vh::rng& r, bool small, const vh::args& a) {
   if (famsel < 8) {
     p.family = "root";
     const auto n = r.below(3);  // empty / single leaf / two leaves
-    bytes k1 = B, k2 = with(B, r.below(8), static_cast<unsigned char>(B[0]) ^ 0x55U), k3 = with(B, 7, static_cast<unsigned char>(B[7]) ^ 1U);
+    bytes k1 = B, k2 = with(B, r.below(L), static_cast<unsigned char>(B[0]) ^ 0x55U), k3 = with(B, L - 1, static_cast<unsigned char>(B[L - 1]) ^ 1U);
     if (n >= 1) init.insert(k1);
     if (n >= 2) init.insert(k2);
     uni = {k1, k2, k3};
@@ -111,12 +118,13 @@ program make_program(vh::rng& r, bool small, const vh::args& a) {
   } else {
     static const unsigned fans[] = {2, 2, 3, 4, 4, 5, 5, 16, 17, 48, 49};
     const unsigned f = fans[r.below(small && !r.chance(0.25) ? 7 : 11)];
-    const std::size_t p0 = r.below(4), p1 = p0 + 1 + r.below(3), p2 = p1 < 7 ? p1 + 1 + r.below(7 - p1) : 7;
+    const std::size_t p0 = r.below(std::min<std::size_t>(4, L - 3)), p1 = std::min(L - 1, p0 + 1 + r.below(3));
+    const std::size_t p2 = p1 < L - 1 ? p1 + 1 + r.below(std::min<std::size_t>(7, L - 1 - p1)) : L - 1;
     const int top = static_cast<int>(r.below(3));  // 0: hot node is the root; 1: one sibling leaf; 2: two sibling leaves
-    const bool deep = p1 < 7 && r.chance(0.6);
+    const bool deep = p1 < L - 1 && r.chance(0.6);
     p.family = "hot" + std::to_string(f) + (top == 0 ? "-root" : (top == 1 ? "-under-I4x2" : "-under-I4x3")) + (deep ? "-deep" : "");
     bytes Z = B;
-    for (std::size_t i = p1 + 1; i < 8; ++i) Z[i] = 0;
+    for (std::size_t i = p1 + 1; i < L; ++i) Z[i] = 0;
     std::vector<unsigned> hv;
     std::set<unsigned> used;
     while (hv.size() < f) { const unsigned v = static_cast<unsigned>(r.below(256)); if (used.insert(v).second) hv.push_back(v); }
@@ -657,10 +665,17 @@ void post_checks(Db& db, const program& p, exec_state& x) {
   const bytes pv = value_bytes(77);
   for (const auto& k : p.universe) {
     for (const unsigned flip : {1U, 0x80U}) {
-      for (const std::size_t pos : {std::size_t{7}, std::size_t{3}, std::size_t{0}}) {
+      const std::size_t lp = std::min<std::size_t>(k.size(), 8);  // keys differ within their first 8 bytes (see make_program)
+      for (const std::size_t pos : {lp - 1, lp / 2, std::size_t{0}}) {
         bytes n = k;
         n[pos] = static_cast<char>(static_cast<unsigned char>(n[pos]) ^ flip);
         if (std::binary_search(p.all_keys.begin(), p.all_keys.end(), n, vm::byte_less{})) continue;
+        {
+          // stay inside the D4-free domain: the probe must not need a compressed path longer than 7 bytes
+          auto with_probe = present;
+          with_probe.insert(std::lower_bound(with_probe.begin(), with_probe.end(), n, vm::byte_less{}), n);
+          if (!vu::admissible_set(with_probe)) continue;
+        }
         barrier();
         const bool i = db.insert(keyconv<K>::to(n), unodb::value_view{reinterpret_cast<const std::byte*>(pv.data()), pv.size()});
         const bool rm = db.remove(keyconv<K>::to(n));
@@ -826,7 +841,7 @@ bool execute_free(const program& p, u64 round_seed) {
 
 template <class Db>
 bool run_case_free(u64 c, vh::rng& r, const vh::args& a) {
-  program p = make_program(r, r.chance(0.3), a);
+  program p = make_program(r, r.chance(0.3), a, std::is_same_v<typename Db::key_type, unodb::key_view>);
   p.keykind = keyconv<typename Db::key_type>::name;
   if (c < 2) rep().sample(json::object().set("program", p.to_json()).set("mode", "free-running"), 3);
   const u64 rounds = a.num("rounds", 30);
@@ -849,7 +864,7 @@ void fatal_handler(const std::string& kind, const std::string& what) {
 
 template <class Db>
 bool run_case_t(u64 c, vh::rng& r, const vh::args& a, bool small) {
-  program p = make_program(r, small, a);
+  program p = make_program(r, small, a, std::is_same_v<typename Db::key_type, unodb::key_view>);
   p.keykind = keyconv<typename Db::key_type>::name;
   if (c < 3) rep().sample(json::object().set("program", p.to_json()), 3);
   rep().count("family." + p.family.substr(0, p.family.find('-')));
